@@ -23,6 +23,7 @@ SCRIPTS = {
     'time-of-day': 'time at 8:00 on "A" off "A"',
     'long-delay-then-loop': 'time 3 repeat begin on "A" end',
 }
+WEB_PATH = 'kid\'s "room" <&>'
 NEXT_JOB = 'on "C" off "C"'
 NEXT_FOREVER = 'repeat begin on "C" off "C" end'
 LATER_JOB = 'time 1 on "C" off "C"'
@@ -87,6 +88,16 @@ def scenario(ctx, script_key, stop_api, with_next, max_preempt, later=False):
         def requester():
             if stop_api in ('stop_background', 'stop_all_bg'):
                 jc.spawn_job(job, 'main')
+            elif stop_api in ('web_stop_script', 'web_stop_script_bg'):
+                # started and stopped the way the web server does it: the job is named after the manifest path
+                sc = web_app_mod.ScriptControl('main.ls', run_background=stop_api.endswith('_bg'), path=WEB_PATH)
+                web_app._scripts[WEB_PATH] = sc
+                real_job_class = web_app_mod.ScriptJob
+                web_app_mod.ScriptJob = type('OneJob', (), {'from_file': staticmethod(lambda fname: job)})
+                try:
+                    web_app.queue_script(sc)
+                finally:
+                    web_app_mod.ScriptJob = real_job_class
             else:
                 jc.add_job(job, 'main')
             if nxt is not None:
@@ -118,11 +129,30 @@ def scenario(ctx, script_key, stop_api, with_next, max_preempt, later=False):
                         s.yield_point('retry')
             elif stop_api == 'stop_job':
                 marks['result'] = jc.stop_job('main')
+            elif stop_api in ('web_stop_script', 'web_stop_script_bg'):
+                marks['result'] = web_app.stop_script(WEB_PATH)
+                if not marks['result'] and (marks['current_at_stop'] is not None or stop_api.endswith('_bg')):
+                    problems.append('the web server\'s stop for path %r found no job although the script it had started was running' % WEB_PATH)
             elif stop_api == 'stop_current':
                 marks['result'] = jc.stop_current()
             elif stop_api == 'stop_background':
                 marks['result'] = jc.stop_background()
             elif stop_api in ('stop_all', 'stop_all_bg'):       # the web server's stop-all, on this controller
+                marks['result'] = web_app.stop_all()
+            elif stop_api == 'stop_all_handover':
+                # stop-all arriving while the job in front is finishing by itself and handing over to the next one
+                n_main = 4 if script_key == 'straight' else 3
+                for attempt in range(300):
+                    if len([e for e in net.trace if e[0] == 'power' and e[1] in ('A', 'B')]) >= n_main:
+                        break
+                    simsched.ShimTime.sleep(0.05)
+                for _ in range(ctx.choose(3, 'handover-wait')):
+                    simsched.ShimTime.sleep(0.05)
+                marks['before'] = len(net.trace)
+                simsched.Sched.cur_sched = None
+                cur = jc.__dict__.get('$_active_agent')
+                marks['current_at_stop'] = cur.name if cur is not None else None
+                simsched.Sched.cur_sched = s
                 marks['result'] = web_app.stop_all()
             marks['returned'] = len(net.trace)
             marks['t_stop'] = s.now
@@ -164,7 +194,7 @@ def scenario(ctx, script_key, stop_api, with_next, max_preempt, later=False):
             if with_next and not aim_next and stop_api in ('stop_job', 'stop_current') and marks.get('current_at_stop') != 'next':
                 if len(c_cmds) < 2:
                     problems.append('the next queued job did not run to completion after the stop (%d of 2 commands)' % len(c_cmds))
-            if with_next and stop_api == 'stop_all':
+            if with_next and stop_api in ('stop_all', 'stop_all_handover'):
                 started_after = [e for e in net.trace[marks['returned']:] if e[0] == 'power' and e[1] == 'C']
                 queued_ran_before = [e for e in net.trace[:marks['before']] if e[1] == 'C']
                 if started_after and marks.get('current_at_stop') != 'next' and (len(started_after) > 1 or
@@ -247,8 +277,14 @@ def run(tier, seed):
                 items.append({'script': script, 'api': api, 'next': nxt, 'later': False, 'preempt': 2 if q else 3,
                               'max_paths': 2500 if q else 150000, 'budget_s': 24 if q else 600})
         if script in ('straight', 'timed'):
+            items.insert(0, {'script': script, 'api': 'stop_all_handover', 'next': True, 'later': False, 'preempt': 2 if q else 3,
+                             'max_paths': 3000 if q else 150000, 'budget_s': 60 if q else 600})
             items.insert(0, {'script': script, 'api': 'stop_next', 'next': True, 'later': False, 'preempt': 2 if q else 3,
                              'max_paths': 3000 if q else 150000, 'budget_s': 75 if q else 600})
+        if script in ('forever', 'timed'):
+            for api in ('web_stop_script', 'web_stop_script_bg'):
+                items.append({'script': script, 'api': api, 'next': False, 'later': False, 'preempt': 1 if q else 2,
+                              'max_paths': 1200 if q else 100000, 'budget_s': 20 if q else 400})
         items.append({'script': script, 'api': 'stop_job', 'next': False, 'later': True, 'preempt': 1 if q else 2,
                       'max_paths': 2500 if q else 150000, 'budget_s': 30 if q else 600})
     results, skipped = report.run_pool(worker, items, budget_s=common.tier_budget(tier, 80, 1000))
